@@ -606,6 +606,27 @@ class OwnAnalyzer:
         if (field == 'allocate' or cn in self.fresh or cn == 'cJSON_malloc') and cn not in CONSUME_ALWAYS:
             self.checked['alloc'] += 1
             outs = []
+            # a static constructor that disposes of (a field of) one of its arguments on every path - a grow/shrink helper that
+            # moves the old block into the new one or releases it - takes that block in both outcomes
+            if cn in self.u.functions and self.u.functions[cn].static:
+                disposed = _always_releases_param(self.u, self.u.functions[cn])
+                if disposed:
+                    st = st.copy()
+                    for (pi, f) in disposed:
+                        if pi >= len(c['args']):
+                            continue
+                        tv0 = None
+                        if f is None:
+                            tv0 = vs[pi] if pi < len(vs) else None
+                        else:
+                            a0 = strip_casts(c['args'][pi])
+                            key0 = self.var_key({'k': 'mem', 'f': f, 'arrow': True, 'b': a0})
+                            if key0 is not None:
+                                tv0 = st.vals.get(key0)
+                            elif pi < len(vs) and vs[pi][0] == 'tok':
+                                tv0 = st.vals.get(('tf', vs[pi][1], f))
+                        if tv0 is not None and tv0[0] == 'tok':
+                            self.release(st, tv0[1], False, c)
             s_ok, tv = self.new_token(st, c)
             s_ok.hist = s_ok.hist + ('%d:%s ok' % (c['loc'][0], cn or field),)
             # arguments that are tokens passed to a constructor stay owned by the caller unless consumed below
